@@ -716,7 +716,11 @@ func replayFile(out *vc.Out, path string) {
 			sz, _ := strconv.Atoi(toks[3])
 			emitCap(out, ty, toks[2] == "1", sz)
 		case "rtw":
-			replayRTW(out, toks)
+			if strings.Contains("QqKkFf", toks[1]) {
+				replayRTX(out, toks)
+			} else {
+				replayRTW(out, toks)
+			}
 		case "cw":
 			replayCW(out, toks)
 		}
@@ -745,6 +749,8 @@ func main() {
 			genDX(out, vc.NewRand(*seed+5), *tier == "thorough")
 		case "ws":
 			genRTW(out, r, *tier == "thorough")
+		case "xport":
+			genRTX(out, r, *tier == "thorough")
 		case "cw":
 			genCW(out, r, *tier == "thorough")
 		case "raw":
